@@ -212,6 +212,15 @@ def main(tier: str, seed: int) -> int:
                 specs.append(v)
                 index.append((label, sd, vname, bi, len(specs) - 1))
             chk.add_case({"scenario": label, "seed": sd, "actions": acts[:12]})
+    # boundary seed values through reset(seed=...): 0 is a seed like any other (Gymnasium: only None means "do not re-seed")
+    boundary: List[tuple] = []
+    for bsd in (0,):
+        label, sc, nact = scen[0]
+        acts = [rng.randrange(nact) for _ in range(steps)]
+        specs.append({"scenario": sc, "seed": bsd, "episodes": [acts, acts], "hashseed": 0, "profile": {}, "max_len": 200,
+                      "state_digest": False})
+        boundary.append((label, bsd, len(specs) - 1))
+        chk.add_case({"scenario": label, "seed": bsd, "actions": acts[:12], "variant": "reseed_on_reset (boundary seed)"})
     outs = pairs.run_workers(specs)
     for o, sp in zip(outs, specs):
         if sp.get("hashseed", 0) == 0 and not sp.get("profile") and (o["raised"] or len(o["steps"]) < 2 * (steps + 1)):
@@ -229,6 +238,10 @@ def main(tier: str, seed: int) -> int:
             n = 1 + steps
             traces.append(pairs.pair_trace(o, o, o["steps"][:n], o["steps"][n : 2 * n],
                                            meta={"scenario": label, "seed": sd, "variant": "reseed_on_reset"}))
+    for label, bsd, i in boundary:
+        o, n = outs[i], 1 + steps
+        traces.append(pairs.pair_trace(o, o, o["steps"][:n], o["steps"][n : 2 * n],
+                                       meta={"scenario": label, "seed": bsd, "variant": "reseed_on_reset"}))
     res = tlc.validate("PairTrace", traces)
     common.judge_traces(chk, "Pair", traces, res, sig_fn, selftest="PairTrace")
     chk.cov["states"] = res["distinct"]
